@@ -21,7 +21,7 @@ node.withs is the tuple of `with` context expressions (normalised text)
 enclosing the node, plus X for the idiom `X.acquire(); try: ... finally: X.release()`.
 """
 import ast
-from .model import AnalysisError, dump, is_logging_call
+from .model import unsafe_log_extra, AnalysisError, dump, is_logging_call
 
 CATCH_ALL = ("Exception", "BaseException")
 
@@ -99,6 +99,8 @@ def expr_may_raise(e):
             skip.add(id(n.func))
             continue
         if isinstance(n, ast.Call) and is_logging_call(n):
+            if unsafe_log_extra(n):
+                return True        # Logger.makeRecord raises KeyError for an `extra` key that names a LogRecord attribute
             for sub in ast.walk(n.func):
                 skip.add(id(sub))
             continue
